@@ -321,4 +321,115 @@ theorem tokEndTag_inactive (s : St) (hw : VecWf s.disp.endTag) (hna : s.disp.end
   show s.payloads.filter _ = s.payloads
   simp
 
+/-! ## `handle_tag` from `endLex` -/
+
+/-- the state `handle_end_tag` leaves is a `J2` state if it did not ask for the token -/
+theorem endTag_J2_of_inactive (cfg : Cfg) (s : St) (hJ : J2 cfg s) (ln : LocalName)
+    (hna : (endTag s ln).1.disp.endTag.hasActive = false) : J2 cfg (endTag s ln).1 := by
+  have hne : (endTag s ln).2.nextEndTag = false := by rw [endTag_flag_active]; exact hna
+  obtain ⟨c1, _⟩ := (J2_evInv cfg).end_ s ln [] [] ⟨0, 0⟩ hJ
+  have hce : ctlStep cfg s (.end_ ln (.endTag [] [] ⟨0, 0⟩)) = ((endTag s ln).1, none) := by
+    simp only [ctlStep, tokIf, hne, Bool.false_eq_true, if_false]
+  have := c1 (by rw [hce])
+  rw [hce] at this
+  exact this
+
+/-- post-condition of `handle_tag` over the real controller: idle again with `J2`, or a handler / `DispOwn` error -/
+def PostT {cfg : Cfg} (r : DRes (FullSt cfg) Directive) : Prop :=
+  (∀ a, r.2 = .ok a → Idle r.1 ∧ J2 cfg r.1.ctl.1) ∧ (∀ e, r.2 = .error e → HO e)
+
+theorem postT_err {cfg : Cfg} (d : Disp (FullSt cfg)) (e : Err) (h : HO e) : PostT ((d, .error e) : DRes (FullSt cfg) Directive) := by
+  refine ⟨fun a ha => ?_, fun e' he' => ?_⟩
+  · cases ha
+  · simp only [Except.error.injEq] at he'
+    rw [← he']; exact h
+
+/-- **(`handle_tag`, `endLex`)**, without the ghost: the closing chunk of an open text node, then the second half of the
+end-tag event — the token iff the dispatcher's flags ask for it (they do if the controller's do) -/
+theorem tag_endLex (cfg : Cfg) (d : Disp (FullSt cfg)) (s : St) (ln : LocalName) (hJ : J2 cfg s)
+    (hc : EqT (endTag s ln).1 d.ctl.1) (hg : d.gotFlagsFromHint = true) (hp : d.pendingAux = false)
+    (hfl : (endTag s ln).1.disp.endTag.hasActive = true → d.flags.nextEndTag = true)
+    (input : Bytes) (lx : TagLexeme) (name : Range) (h : Nat) (ho : lx.outline = .endTag name h) :
+    PostT (Disp.handleTag (fullCtl cfg) input lx d) := by
+  have hmf : (endTag s ln).1.fault = none := endTag_fault_none cfg s hJ ln
+  unfold Disp.handleTag
+  obtain ⟨tokF, ⟨tt, p, htokF⟩, f1, f2, f3, f4⟩ := flushPendingText_full d
+  have hkF : (CtlEv.other tokF).WellKinded := by rw [htokF]; trivial
+  obtain ⟨o1, o2⟩ := eqT_other cfg (endTag s ln).1 hmf d.ctl.1 tokF d.textPending hc hkF
+  cases h0 : (tokIf cfg d.textPending d.ctl.1 tokF).2 with
+  | some e =>
+    rw [h0] at f4
+    rw [DRes.bind_err _ _ e f4]
+    exact postT_err _ e (Or.inl (o2 e h0))
+  | none =>
+    rw [h0] at f4
+    rw [DRes.bind_ok _ _ () f4]
+    have hc1 : EqT (endTag s ln).1 (d.flushPendingText (fullCtl cfg)).1.ctl.1 := by rw [f1]; exact o1 h0
+    have hg1 : (d.flushPendingText (fullCtl cfg)).1.gotFlagsFromHint = true := by rw [f3.gf]; exact hg
+    have hp1 : (d.flushPendingText (fullCtl cfg)).1.pendingAux = false := by rw [f3.pa]; exact hp
+    have hfl1 : (endTag s ln).1.disp.endTag.hasActive = true → (d.flushPendingText (fullCtl cfg)).1.flags.nextEndTag = true := by
+      rw [f2]; exact hfl
+    generalize (d.flushPendingText (fullCtl cfg)).1 = d1 at hc1 hg1 hp1 hfl1 ⊢
+    rw [if_pos hg1]
+    rw [DRes.bind_ok _ _ () rfl]
+    dsimp only
+    obtain ⟨r1, r2, r3⟩ := resumeEmission_same ({ d1 with gotFlagsFromHint := false } : Disp (FullSt cfg)) lx
+    have hc3 : EqT (endTag s ln).1 (Disp.resumeEmission (fullCtl cfg) { d1 with gotFlagsFromHint := false } lx).ctl.1 := by
+      rw [r1]; exact hc1
+    have hi3 : Idle (Disp.resumeEmission (fullCtl cfg) { d1 with gotFlagsFromHint := false } lx) :=
+      ⟨by rw [r3.pa]; exact hp1, by rw [r3.gf]⟩
+    have hfl3 : (endTag s ln).1.disp.endTag.hasActive = true →
+        (Disp.resumeEmission (fullCtl cfg) { d1 with gotFlagsFromHint := false } lx).flags.nextEndTag = true := by
+      rw [r2]; exact hfl1
+    generalize Disp.resumeEmission (fullCtl cfg) { d1 with gotFlagsFromHint := false } lx = d3 at hc3 hi3 hfl3 ⊢
+    obtain ⟨p1, p2⟩ := produceTag_end_full d3 input lx name h ho
+    cases hb1 : d3.flags.nextEndTag with
+    | false =>
+      obtain ⟨q1, q2, q3⟩ := p1 hb1
+      rw [DRes.bind_ok _ _ () q1]
+      have hna : (endTag s ln).1.disp.endTag.hasActive = false := by
+        cases hact : (endTag s ln).1.disp.endTag.hasActive with
+        | false => rfl
+        | true => rw [hfl3 hact] at hb1; cases hb1
+      have hJ3 : J2 cfg (d3.produceTag (fullCtl cfg) input lx).1.ctl.1 := by
+        rw [q2]
+        exact J2_congr hc3 (endTag_J2_of_inactive cfg s hJ ln hna)
+      exact ⟨fun _ _ => ⟨q3.idle hi3, hJ3⟩, fun e he => by cases he⟩
+    | true =>
+      rcases p2 hb1 with ⟨e, he, hq⟩ | ⟨n, raw, q1, q2, q3⟩
+      · rw [DRes.bind_err _ _ e hq]
+        exact postT_err _ e (Or.inr he)
+      · have hf3 : d3.ctl.1.fault = none := by rw [hc3.fault]; exact hmf
+        have htok : ∀ m : St, m.fault = none → token cfg m (.endTag n raw (srcOf lx.prevConsumed lx.raw)) =
+            tokEndTag m n raw (srcOf lx.prevConsumed lx.raw) := by
+          intro m hm; unfold token; simp only [hm]
+        rw [htok _ hf3] at q1 q3
+        obtain ⟨ce, cs⟩ := tokEndTag_congr (endTag s ln).1 d3.ctl.1 hc3 n raw (srcOf lx.prevConsumed lx.raw)
+        -- the token at the hint's state
+        have hbase : (tokEndTag (endTag s ln).1 n raw (srcOf lx.prevConsumed lx.raw)).2.err = none ∧
+            J2 cfg (tokEndTag (endTag s ln).1 n raw (srcOf lx.prevConsumed lx.raw)).1 := by
+          cases hact : (endTag s ln).1.disp.endTag.hasActive with
+          | false =>
+            obtain ⟨a, b⟩ := tokEndTag_inactive (endTag s ln).1
+              (endTag_good (cfg := cfg) hJ.1.valid.toGood ln).wf.endTag hact n raw (srcOf lx.prevConsumed lx.raw)
+            exact ⟨a, J2_congr b (endTag_J2_of_inactive cfg s hJ ln hact)⟩
+          | true =>
+            have hne : (endTag s ln).2.nextEndTag = true := by rw [endTag_flag_active]; exact hact
+            obtain ⟨c1, c2⟩ := (J2_evInv cfg).end_ s ln n raw (srcOf lx.prevConsumed lx.raw) hJ
+            have hce : ctlStep cfg s (.end_ ln (.endTag n raw (srcOf lx.prevConsumed lx.raw))) =
+                ((tokEndTag (endTag s ln).1 n raw (srcOf lx.prevConsumed lx.raw)).1,
+                 (tokEndTag (endTag s ln).1 n raw (srcOf lx.prevConsumed lx.raw)).2.err) := by
+              simp only [ctlStep, tokIf, hne, if_true, htok _ hmf]
+            cases hte : (tokEndTag (endTag s ln).1 n raw (srcOf lx.prevConsumed lx.raw)).2.err with
+            | some e => exact (c2 e (by rw [hce, hte])).elim
+            | none =>
+              have := c1 (by rw [hce, hte])
+              rw [hce] at this
+              exact ⟨rfl, this⟩
+        rw [ce, hbase.1] at q3
+        rw [DRes.bind_ok _ _ () q3]
+        have hJ4 : J2 cfg (d3.produceTag (fullCtl cfg) input lx).1.ctl.1 := by
+          rw [q1]; exact J2_congr cs hbase.2
+        exact ⟨fun _ _ => ⟨q2.idle hi3, hJ4⟩, fun e he => by cases he⟩
+
 end LolHtml.Thm.Full
